@@ -241,7 +241,11 @@ def _run(env, sc, sq, r, ops, crash_at):
         if not m.complete and any(content.body(u, v).startswith(m.body) for v in served):
             r.label("hit-truncated-with-correct-prefix")      # delivered as incomplete: the client can tell
             continue
-        r.fail("hit-is-not-a-complete-origin-version:" + store.split("-")[0],
+        cls = ""
+        if store.startswith("rock") and fired and partial >= 0 and any(content.served[path][v] == len(m.body) for v in content.all_versions(u)):
+            # rock writes a slot (header + payload) with one write(); a partial write leaves a sane header over a torn payload
+            cls = ":torn-slot-after-partial-write"
+        r.fail("hit-is-not-a-complete-origin-version:" + store.split("-")[0] + cls,
                "u%d: only-if-cached 200 after the crash with %d body bytes (complete=%s) matching none of the %d completely served versions (sizes %s); crash_at=%d partial=%d" % (
                    u, len(m.body), m.complete, len(served), [content.served[path][v] for v in served], crash_at, partial))
     if hits:
